@@ -2,7 +2,7 @@
 // SPDX-License-Identifier: GPL-3.0-or-later
 
 use crate::{ByteBuffer, ByteSpan};
-use std::collections::HashMap;
+use std::collections::{HashMap, HashSet};
 use std::io::{BufRead, BufReader, BufWriter, Cursor, Write};
 
 /// Represents a collection of keys, mapped to their values.
@@ -34,6 +34,10 @@ impl ConfigFile {
 
         let mut current_category: Option<String> = None;
 
+        // Settings are kept per category name, so a category that occurs again in the file continues the
+        // first one: it is listed once, or the writer would repeat all of its settings per occurrence.
+        let mut seen_categories: HashSet<String> = HashSet::new();
+
         for line in reader.lines().map_while(Result::ok) {
             if !line.is_empty() && line != "\0" {
                 if line.contains('<') || line.contains('>') {
@@ -43,7 +47,9 @@ impl ConfigFile {
                         continue;
                     };
                     current_category = Some(String::from(name));
-                    cfg.categories.push(String::from(name));
+                    if seen_categories.insert(String::from(name)) {
+                        cfg.categories.push(String::from(name));
+                    }
                 } else if let (Some(category), Some((key, value))) =
                     (&current_category, line.split_once('\t'))
                 {
